@@ -72,6 +72,8 @@ class Prop(BaseProp):
                 raw = []
                 for k in range(rng.randint(1, 5)):
                     t = f"text {{L{it.uid}.{k}}} more"
+                    if rng.random() < 0.2:
+                        t = t.replace(" more", rng.choice(["\x0c", "\x0b", "\x1c", "\x1d", "\x85", "\u2028", "\u2029"]) + "after odd char")
                     raw.append(rng.choice([t, "   " + t, "      deeper " + t, "# " + t, "#" + t, "  # " + t, "#    " + t, "#\t" + t,
                                            "", "#", " #", "\t" + t, "- item " + t, "#[ " + t, "    # " + t + " #"]))
                 it.raw_lines = raw
